@@ -142,10 +142,17 @@ func runRPC(d *Defs, svcKey, methodKey, payload string) string {
 	var mu sync.Mutex
 	var calls []invocation
 	handlerDone := make(chan struct{}, 8)
+	var handlerHdrs string
 	call := func(service, m string, fctx frugal.FContext, args []interface{}, ret interface{}) error {
 		mu.Lock()
 		calls = append(calls, invocation{service, m, args, fctx.CorrelationID()})
+		handlerHdrs = userPairs(fctx.RequestHeaders())
 		mu.Unlock()
+		for k, v := range fctx.RequestHeaders() {
+			if !strings.HasPrefix(k, "_") {
+				fctx.AddResponseHeader("r-"+k, v)
+			}
+		}
 		defer func() { handlerDone <- struct{}{} }()
 		switch outcome[0] {
 		case 'v':
@@ -294,6 +301,10 @@ func runRPC(d *Defs, svcKey, methodKey, payload string) string {
 	}
 	fctx := frugal.NewFContext("cid-" + method)
 	fctx.SetTimeout(5 * time.Second)
+	nhdr := len(argv.Fields) % 4 // 0..3 user request headers, derived from the case
+	for i := 0; i < nhdr; i++ {
+		fctx.AddRequestHeader(fmt.Sprintf("u%d-%s", i, method), fmt.Sprintf("v%d é %s", i, svcKey))
+	}
 	in := []reflect.Value{reflect.ValueOf(fctx)}
 	mt := mv.Type()
 	for i, f := range argsSD.Fields {
@@ -398,6 +409,9 @@ func runRPC(d *Defs, svcKey, methodKey, payload string) string {
 		cidOK = "cid=" + cidSeen
 	}
 	out := fmt.Sprintf("calls=%d args=%s %s result=%s", ncalls, argsDump, cidOK, result)
+	mu.Lock()
+	out += " || H hdr=" + handlerHdrs + " rsp=" + userPairs(fctx.ResponseHeaders())
+	mu.Unlock()
 	if len(parts) == 4 {
 		trMu.Lock()
 		ce, pe := "-", "-"
@@ -417,6 +431,30 @@ func runRPC(d *Defs, svcKey, methodKey, payload string) string {
 		trMu.Unlock()
 	}
 	return out
+}
+
+// userPairs renders the non-reserved headers (names not starting with `_`) sorted by name.
+func userPairs(h map[string]string) string {
+	var ks []string
+	for k := range h {
+		if !strings.HasPrefix(k, "_") {
+			ks = append(ks, k)
+		}
+	}
+	for i := 0; i < len(ks); i++ {
+		for j := i + 1; j < len(ks); j++ {
+			if ks[j] < ks[i] {
+				ks[i], ks[j] = ks[j], ks[i]
+			}
+		}
+	}
+	var b strings.Builder
+	b.WriteByte('{')
+	for _, k := range ks {
+		b.WriteString(k + "=" + h[k] + ";")
+	}
+	b.WriteByte('}')
+	return b.String()
 }
 
 // baseMark records when the emitted client's internal method reaches the transport (the "base" of the
